@@ -1,5 +1,519 @@
 import Iscp.Model.Neg
 /- helper lemmas for Props/C17.lean -/
 namespace Iscp.Neg
+open Iscp.Seg (Bytes be16 rd16)
+
+/-! ### UTF-8 -/
+
+theorem utf8Step_bounds {bs : Bytes} {n : Nat} (h : utf8Step bs = some n) : 1 ≤ n ∧ n ≤ bs.length := by
+  unfold utf8Step at h
+  split at h
+  · simp at h
+  · split at h
+    · simp at h; subst h; simp
+    · split at h
+      · split at h
+        · split at h <;> simp at h
+          subst h; simp
+        · simp at h
+      · split at h
+        · split at h
+          · split at h <;> simp at h <;> obtain ⟨_, rfl⟩ := h <;> simp
+          · simp at h
+        · split at h
+          · split at h
+            · split at h <;> simp at h <;> obtain ⟨_, rfl⟩ := h <;> simp
+            · simp at h
+          · simp at h
+
+theorem utf8Step_take {bs : Bytes} {n : Nat} (rest : Bytes) (h : utf8Step bs = some n) :
+    utf8Step (bs.take n ++ rest) = some n := by
+  unfold utf8Step at h
+  split at h
+  · simp at h
+  · rename_i b0 r
+    split at h
+    · simp at h; subst h; simp [utf8Step, *]
+    · split at h
+      · split at h
+        · split at h <;> simp at h
+          subst h; simp [utf8Step, *]
+        · simp at h
+      · split at h
+        · split at h
+          · split at h <;> simp at h <;> obtain ⟨h1, rfl⟩ := h <;> (try subst b0) <;> (try simp at h1) <;> simp [utf8Step, *]
+          · simp at h
+        · split at h
+          · split at h
+            · split at h <;> simp at h <;> obtain ⟨h1, rfl⟩ := h <;> (try subst b0) <;> (try simp at h1) <;> simp [utf8Step, *]
+            · simp at h
+          · simp at h
+
+theorem utf8ValidF_nil (f : Nat) : utf8ValidF f [] = true := by cases f <;> rfl
+theorem sanitizeF_nil (f : Nat) : sanitizeF f [] = [] := by cases f <;> rfl
+
+theorem utf8ValidF_fuel : ∀ (f g : Nat) (bs : Bytes), bs.length ≤ f → bs.length ≤ g →
+    utf8ValidF f bs = utf8ValidF g bs := by
+  intro f
+  induction f with
+  | zero =>
+    intro g bs h1 _
+    have : bs = [] := List.eq_nil_of_length_eq_zero (by omega)
+    subst this; simp [utf8ValidF_nil]
+  | succ f ih =>
+    intro g bs h1 h2
+    cases bs with
+    | nil => simp [utf8ValidF_nil]
+    | cons b r =>
+      cases g with
+      | zero => simp at h2
+      | succ g =>
+        simp only [utf8ValidF]
+        cases hs : utf8Step (b :: r) with
+        | none => rfl
+        | some n =>
+          have hb := utf8Step_bounds hs
+          simp only
+          apply ih <;> simp only [List.length_drop, List.length_cons] at * <;> omega
+
+theorem sanitizeF_of_valid : ∀ (f : Nat) (bs : Bytes), utf8ValidF f bs = true → sanitizeF f bs = bs := by
+  intro f
+  induction f with
+  | zero => intro bs h; cases bs with
+    | nil => rfl
+    | cons b r => simp [utf8ValidF] at h
+  | succ f ih =>
+    intro bs h
+    cases bs with
+    | nil => rfl
+    | cons b r =>
+      simp only [utf8ValidF, sanitizeF] at h ⊢
+      cases hs : utf8Step (b :: r) with
+      | none => simp [hs] at h
+      | some n =>
+        simp only [hs] at h ⊢
+        rw [ih _ h, List.take_append_drop]
+
+theorem sanitize_of_valid (b : Bytes) (h : utf8Valid b = true) : sanitize b = b :=
+  sanitizeF_of_valid _ _ h
+
+/-- one valid step in front -/
+theorem utf8Valid_step_append {pre rest : Bytes} (h : utf8Step (pre ++ rest) = some pre.length) :
+    utf8Valid (pre ++ rest) = utf8Valid rest := by
+  have hb := utf8Step_bounds h
+  unfold utf8Valid
+  cases hl : (pre ++ rest).length with
+  | zero => rw [hl] at hb; omega
+  | succ m =>
+    cases hp : pre ++ rest with
+    | nil => simp [hp] at hl
+    | cons x y =>
+      rw [← hp]
+      have : utf8ValidF (m + 1) (pre ++ rest) = utf8ValidF m ((pre ++ rest).drop pre.length) := by
+        rw [hp] at h ⊢
+        simp only [utf8ValidF, h]
+      rw [this, List.drop_left]
+      apply utf8ValidF_fuel <;> simp at hl ⊢ <;> omega
+
+theorem utf8Valid_sanitizeF : ∀ (f : Nat) (bs : Bytes), utf8Valid (sanitizeF f bs) = true := by
+  intro f
+  induction f with
+  | zero => intro bs; cases bs <;> rfl
+  | succ f ih =>
+    intro bs
+    cases bs with
+    | nil => rfl
+    | cons b r =>
+      simp only [sanitizeF]
+      cases hs : utf8Step (b :: r) with
+      | none =>
+        simp only
+        rw [utf8Valid_step_append (pre := [239, 191, 189]) (by simp [utf8Step, isCont])]
+        exact ih _
+      | some n =>
+        simp only
+        have hb := utf8Step_bounds hs
+        have h2 := utf8Step_take (sanitizeF f (List.drop n (b :: r))) hs
+        have hl : (List.take n (b :: r)).length = n := by rw [List.length_take]; omega
+        rw [utf8Valid_step_append (by rw [hl]; exact h2)]
+        exact ih _
+
+theorem utf8Valid_sanitize (b : Bytes) : utf8Valid (sanitize b) = true := utf8Valid_sanitizeF _ _
+
+theorem utf8Valid_of_ascii : ∀ (bs : Bytes), (∀ b ∈ bs, b < 128) → utf8Valid bs = true := by
+  intro bs
+  induction bs with
+  | nil => intro _; rfl
+  | cons b r ih =>
+    intro h
+    have hb : b < 128 := h b (by simp)
+    have := utf8Valid_step_append (pre := [b]) (rest := r) (by simp [utf8Step, hb])
+    simp only [List.singleton_append] at this
+    rw [this]
+    exact ih (fun x hx => h x (by simp [hx]))
+
+
+/-! ### decimal integers -/
+
+theorem natDigits_digits : ∀ (f n : Nat), ∀ c ∈ natDigits f n, 48 ≤ c ∧ c ≤ 57 := by
+  intro f
+  induction f with
+  | zero => intro n c hc; simp [natDigits] at hc; omega
+  | succ f ih =>
+    intro n c hc
+    simp only [natDigits] at hc
+    split at hc
+    · simp at hc; omega
+    · simp only [List.mem_append, List.mem_singleton] at hc
+      rcases hc with hc | hc
+      · exact ih _ _ hc
+      · omega
+
+theorem natDigits_ne_nil : ∀ (f n : Nat), natDigits f n ≠ [] := by
+  intro f n
+  cases f with
+  | zero => simp [natDigits]
+  | succ f => simp only [natDigits]; split <;> simp
+
+theorem natDigits_length : ∀ (f n k : Nat), 1 ≤ k → n < 10 ^ k → (natDigits f n).length ≤ k := by
+  intro f
+  induction f with
+  | zero => intro n k hk _; simp [natDigits]; omega
+  | succ f ih =>
+    intro n k hk hn
+    simp only [natDigits]
+    split
+    · simpa using hk
+    · rename_i h10
+      cases k with
+      | zero => omega
+      | succ k =>
+        cases k with
+        | zero => simp at hn; omega
+        | succ k =>
+          have : n / 10 < 10 ^ (k + 1) := by
+            rw [Nat.div_lt_iff_lt_mul (by omega)]
+            rw [Nat.pow_succ] at hn; exact hn
+          have := ih (n / 10) (k + 1) (by omega) this
+          simp only [List.length_append, List.length_singleton]; omega
+
+theorem parseDigits_append_single (l : Bytes) (c acc : Nat) (h1 : 48 ≤ c) (h2 : c ≤ 57) :
+    parseDigits (l ++ [c]) acc = (parseDigits l acc).map (fun a => a * 10 + (c - 48)) := by
+  induction l generalizing acc with
+  | nil => simp [parseDigits, h1, h2]
+  | cons d r ih =>
+    simp only [List.cons_append, parseDigits]
+    split
+    · exact ih _
+    · rfl
+
+theorem parseDigits_natDigits : ∀ (f n : Nat), n ≤ f → parseDigits (natDigits f n) 0 = some n := by
+  intro f
+  induction f with
+  | zero => intro n h; have : n = 0 := by omega
+            subst this; simp [natDigits, parseDigits]
+  | succ f ih =>
+    intro n h
+    simp only [natDigits]
+    split
+    · simp [parseDigits]; omega
+    · rw [parseDigits_append_single _ _ _ (by omega) (by omega), ih (n / 10) (by omega)]
+      simp; omega
+
+theorem parseInt_digit (d : Nat) (tl : Bytes) (h1 : 48 ≤ d) (h2 : d ≤ 57) :
+    parseInt (d :: tl) = match parseDigits (d :: tl) 0 with
+      | some n => if (n : Int) ≤ int64Max then some n else none
+      | none => none := by
+  unfold parseInt
+  split
+  · rename_i h; simp at h
+  · rename_i h; simp at h; omega
+  · rfl
+
+theorem parseQuoted_showInt (i : Int) (hlo : int64Min ≤ i) (hhi : i ≤ int64Max) :
+    parseQuoted (showInt i) = .int i := by
+  have hne := natDigits_ne_nil i.natAbs i.natAbs
+  have hpd := parseDigits_natDigits i.natAbs i.natAbs (Nat.le_refl _)
+  have hdg := natDigits_digits i.natAbs i.natAbs
+  cases hd : natDigits i.natAbs i.natAbs with
+  | nil => exact absurd hd hne
+  | cons d tl =>
+    have hd1 := hdg d (by simp [hd])
+    unfold showInt
+    by_cases hneg : i < 0
+    · simp only [hneg, if_true, hd]
+      have hpi : parseInt (45 :: d :: tl) = some i := by
+        simp only [parseInt, List.isEmpty_cons, Bool.false_eq_true, if_false]
+        rw [← hd, hpd]
+        have : -(i.natAbs : Int) = i := by omega
+        simp only [this]
+        simp [hlo]
+      simp [parseQuoted, hpi]
+    · simp only [hneg, if_false, hd]
+      have hpi : parseInt (d :: tl) = some i := by
+        rw [parseInt_digit _ _ hd1.1 hd1.2, ← hd, hpd]
+        have : (i.natAbs : Int) = i := by omega
+        simp only [this]
+        simp [hhi]
+      simp only [parseQuoted, hpi]
+      have : d ≠ 110 ∧ d ≠ 116 ∧ d ≠ 102 ∧ d ≠ 34 := by omega
+      simp [this, hd1]
+/-! ### key/value map -/
+
+theorem tEnc_eq : tEnc = [101, 110, 99] := by decide
+theorem tComp_eq : tComp = [99, 111, 109, 112] := by decide
+theorem tClevel_eq : tClevel = [99, 108, 101, 118, 101, 108] := by decide
+theorem tCwinbits_eq : tCwinbits = [99, 119, 105, 110, 98, 105, 116, 115] := by decide
+theorem tTid_eq : tTid = [116, 105, 100] := by decide
+theorem tReconnect_eq : tReconnect = [114, 101, 99, 111, 110, 110, 101, 99, 116] := by decide
+theorem tTgid_eq : tTgid = [116, 103, 105, 100] := by decide
+theorem tTgcount_eq : tTgcount = [116, 103, 99, 111, 117, 110, 116] := by decide
+theorem tTgidx_eq : tTgidx = [116, 103, 105, 100, 120] := by decide
+theorem ascii_true_eq : ascii "true" = [116, 114, 117, 101] := by decide
+theorem ascii_false_eq : ascii "false" = [102, 97, 108, 115, 101] := by decide
+
+theorem applyKV_enc (q : Params) (v : Bytes) : applyKV q tEnc v = some { q with enc := sanitize v } := by
+  unfold applyKV; rw [if_neg (by decide)]; rfl
+theorem applyKV_comp (q : Params) (v : Bytes) : applyKV q tComp v = some { q with comp := sanitize v } := by
+  unfold applyKV; rw [if_neg (by decide)]; rfl
+theorem applyKV_tid (q : Params) (v : Bytes) : applyKV q tTid v = some { q with tid := sanitize v } := by
+  unfold applyKV; rw [if_neg (by decide)]; rfl
+theorem applyKV_tgid (q : Params) (v : Bytes) : applyKV q tTgid v = some { q with tgid := sanitize v } := by
+  unfold applyKV; rw [if_neg (by decide)]; rfl
+theorem applyKV_clevel (q : Params) (v : Bytes) : applyKV q tClevel v = match parseQuoted v with
+      | .null => some { q with clevel := none }
+      | .int i => some { q with clevel := some i }
+      | .err => none := by
+  unfold applyKV; rw [if_neg (by decide)]; rfl
+theorem applyKV_cwinbits (q : Params) (v : Bytes) : applyKV q tCwinbits v = match parseQuoted v with
+      | .null => some { q with cwinbits := none }
+      | .int i => some { q with cwinbits := some i }
+      | .err => none := by
+  unfold applyKV; rw [if_neg (by decide)]; rfl
+theorem applyKV_tgcount (q : Params) (v : Bytes) : applyKV q tTgcount v = match parseQuoted v with
+      | .null => some q
+      | .int i => some { q with tgcount := i }
+      | .err => none := by
+  unfold applyKV; rw [if_neg (by decide)]; rfl
+theorem applyKV_tgidx (q : Params) (v : Bytes) : applyKV q tTgidx v = match parseQuoted v with
+      | .null => some q
+      | .int i => some { q with tgidx := i }
+      | .err => none := by
+  unfold applyKV; rw [if_neg (by decide)]; rfl
+theorem applyKV_reconnect (q : Params) (v : Bytes) : applyKV q tReconnect v =
+    if v = ascii "true" then some { q with reconnect := true }
+    else if v = ascii "false" then some { q with reconnect := false }
+    else none := by
+  unfold applyKV; rw [if_pos rfl]
+
+
+/-- fields whose tag satisfies `S` are taken from `p`, the others from `q` -/
+def merge (S : Bytes → Bool) (p q : Params) : Params :=
+  { enc := if S tEnc then p.enc else q.enc
+    comp := if S tComp then p.comp else q.comp
+    clevel := if S tClevel then p.clevel else q.clevel
+    cwinbits := if S tCwinbits then p.cwinbits else q.cwinbits
+    tid := if S tTid then p.tid else q.tid
+    reconnect := if S tReconnect then p.reconnect else q.reconnect
+    tgid := if S tTgid then p.tgid else q.tgid
+    tgcount := if S tTgcount then p.tgcount else q.tgcount
+    tgidx := if S tTgidx then p.tgidx else q.tgidx }
+
+theorem merge_merge (k : Bytes) (S : Bytes → Bool) (p q : Params) :
+    merge S p (merge (fun a => decide (a = k)) p q) = merge (fun a => decide (a = k) || S a) p q := by
+  simp only [merge]
+  congr 1 <;> (split <;> split <;> simp_all)
+
+theorem mem_marshalKV (p : Params) (e : Bytes × Bytes) : e ∈ marshalKV p ↔
+    (p.enc ≠ [] ∧ e = (tEnc, sanitize p.enc)) ∨ (p.comp ≠ [] ∧ e = (tComp, sanitize p.comp)) ∨
+    (∃ i, p.clevel = some i ∧ e = (tClevel, showInt i)) ∨ (∃ i, p.cwinbits = some i ∧ e = (tCwinbits, showInt i)) ∨
+    (p.tid ≠ [] ∧ e = (tTid, sanitize p.tid)) ∨ (p.reconnect = true ∧ e = (tReconnect, ascii "true")) ∨
+    (p.tgid ≠ [] ∧ e = (tTgid, sanitize p.tgid)) ∨ (p.tgcount ≠ 0 ∧ e = (tTgcount, showInt p.tgcount)) ∨
+    (p.tgidx ≠ 0 ∧ e = (tTgidx, showInt p.tgidx)) := by
+  rcases p with ⟨enc, comp, cl, cw, tid, rc, tgid, tgc, tgi⟩
+  simp only [marshalKV, List.mem_append]
+  have ite_mem : ∀ (c : Prop) [Decidable c] (x : Bytes × Bytes), (e ∈ if c then [] else [x]) ↔ (¬ c ∧ e = x) := by
+    intro c _ x; split <;> simp [*]
+  have ite_mem' : ∀ (c : Prop) [Decidable c] (x : Bytes × Bytes), (e ∈ if c then [x] else []) ↔ (c ∧ e = x) := by
+    intro c _ x; split <;> simp [*]
+  simp only [ite_mem, ite_mem', or_assoc, ne_eq]
+  cases cl <;> cases cw <;> simp
+
+
+/-- the guard of the round-trip theorems (`WF` of Props/C17.lean, unbundled) -/
+structure PWF (p : Params) : Prop where
+  enc : utf8Valid p.enc = true
+  comp : utf8Valid p.comp = true
+  tid : utf8Valid p.tid = true
+  tgid : utf8Valid p.tgid = true
+  clevel : ∀ i, p.clevel = some i → int64Min ≤ i ∧ i ≤ int64Max
+  cwinbits : ∀ i, p.cwinbits = some i → int64Min ≤ i ∧ i ≤ int64Max
+  tgcount : int64Min ≤ p.tgcount ∧ p.tgcount ≤ int64Max
+  tgidx : int64Min ≤ p.tgidx ∧ p.tgidx ≤ int64Max
+
+theorem applyKV_of_mem (p q : Params) (h : PWF p) (e : Bytes × Bytes) (he : e ∈ marshalKV p) :
+    applyKV q e.1 e.2 = some (merge (fun a => decide (a = e.1)) p q) := by
+  rw [mem_marshalKV] at he
+  rcases p with ⟨enc, comp, cl, cw, tid, rc, tgid, tgc, tgi⟩
+  rcases h with ⟨h1, h2, h3, h4, h5, h6, h7, h8⟩
+  simp only at h1 h2 h3 h4 h5 h6 h7 h8 he
+  rcases he with ⟨_, rfl⟩ | ⟨_, rfl⟩ | ⟨i, hi, rfl⟩ | ⟨i, hi, rfl⟩ | ⟨_, rfl⟩ | ⟨hr, rfl⟩ | ⟨_, rfl⟩ | ⟨_, rfl⟩ | ⟨_, rfl⟩
+  · rw [applyKV_enc, sanitize_of_valid _ (utf8Valid_sanitize _), sanitize_of_valid _ h1]
+    simp [merge, tEnc_eq, tComp_eq, tClevel_eq, tCwinbits_eq, tTid_eq, tReconnect_eq, tTgid_eq, tTgcount_eq, tTgidx_eq]
+  · rw [applyKV_comp, sanitize_of_valid _ (utf8Valid_sanitize _), sanitize_of_valid _ h2]
+    simp [merge, tEnc_eq, tComp_eq, tClevel_eq, tCwinbits_eq, tTid_eq, tReconnect_eq, tTgid_eq, tTgcount_eq, tTgidx_eq]
+  · rw [applyKV_clevel, parseQuoted_showInt i (h5 i hi).1 (h5 i hi).2]
+    simp [merge, hi, tEnc_eq, tComp_eq, tClevel_eq, tCwinbits_eq, tTid_eq, tReconnect_eq, tTgid_eq, tTgcount_eq, tTgidx_eq]
+  · rw [applyKV_cwinbits, parseQuoted_showInt i (h6 i hi).1 (h6 i hi).2]
+    simp [merge, hi, tEnc_eq, tComp_eq, tClevel_eq, tCwinbits_eq, tTid_eq, tReconnect_eq, tTgid_eq, tTgcount_eq, tTgidx_eq]
+  · rw [applyKV_tid, sanitize_of_valid _ (utf8Valid_sanitize _), sanitize_of_valid _ h3]
+    simp [merge, tEnc_eq, tComp_eq, tClevel_eq, tCwinbits_eq, tTid_eq, tReconnect_eq, tTgid_eq, tTgcount_eq, tTgidx_eq]
+  · rw [applyKV_reconnect, if_pos rfl]
+    simp [merge, hr, tEnc_eq, tComp_eq, tClevel_eq, tCwinbits_eq, tTid_eq, tReconnect_eq, tTgid_eq, tTgcount_eq, tTgidx_eq]
+  · rw [applyKV_tgid, sanitize_of_valid _ (utf8Valid_sanitize _), sanitize_of_valid _ h4]
+    simp [merge, tEnc_eq, tComp_eq, tClevel_eq, tCwinbits_eq, tTid_eq, tReconnect_eq, tTgid_eq, tTgcount_eq, tTgidx_eq]
+  · rw [applyKV_tgcount, parseQuoted_showInt _ h7.1 h7.2]
+    simp [merge, tEnc_eq, tComp_eq, tClevel_eq, tCwinbits_eq, tTid_eq, tReconnect_eq, tTgid_eq, tTgcount_eq, tTgidx_eq]
+  · rw [applyKV_tgidx, parseQuoted_showInt _ h8.1 h8.2]
+    simp [merge, tEnc_eq, tComp_eq, tClevel_eq, tCwinbits_eq, tTid_eq, tReconnect_eq, tTgid_eq, tTgcount_eq, tTgidx_eq]
+
+
+theorem applyAll_of_mem (p : Params) (h : PWF p) : ∀ (l : List (Bytes × Bytes)) (q : Params),
+    (∀ e ∈ l, e ∈ marshalKV p) → applyAll q l = some (merge (fun a => l.any (fun e => decide (a = e.1))) p q) := by
+  intro l
+  induction l with
+  | nil => intro q _; simp [applyAll, merge]
+  | cons e r ih =>
+    intro q hm
+    obtain ⟨k, v⟩ := e
+    have h1 := applyKV_of_mem p q h (k, v) (hm _ (by simp))
+    simp only at h1
+    simp only [applyAll, h1]
+    rw [ih _ (fun e he => hm e (by simp [he])), merge_merge]
+    simp [List.any_cons]
+
+theorem mem_insertKV (e x : Bytes × Bytes) (l : List (Bytes × Bytes)) : x ∈ insertKV e l ↔ x = e ∨ x ∈ l := by
+  induction l with
+  | nil => simp [insertKV]
+  | cons y r ih =>
+    simp only [insertKV]
+    split
+    · simp
+    · simp only [List.mem_cons, ih]
+      constructor
+      · rintro (h | h | h) <;> simp [h]
+      · rintro (h | h | h) <;> simp [h]
+
+theorem mem_sortKV (x : Bytes × Bytes) (l : List (Bytes × Bytes)) : x ∈ sortKV l ↔ x ∈ l := by
+  induction l with
+  | nil => simp [sortKV]
+  | cons y r ih =>
+    have : sortKV (y :: r) = insertKV y (sortKV r) := rfl
+    rw [this, mem_insertKV, ih]; simp
+
+theorem any_key_iff (l : List (Bytes × Bytes)) (a : Bytes) :
+    l.any (fun e => decide (a = e.1)) = true ↔ ∃ v, (a, v) ∈ l := by
+  simp only [List.any_eq_true, decide_eq_true_eq]
+  constructor
+  · rintro ⟨⟨k, v⟩, hm, rfl⟩; exact ⟨v, hm⟩
+  · rintro ⟨v, hm⟩; exact ⟨(a, v), hm, rfl⟩
+
+theorem any_sortKV (l : List (Bytes × Bytes)) (f : Bytes × Bytes → Bool) : (sortKV l).any f = l.any f := by
+  rw [Bool.eq_iff_iff]; simp only [List.any_eq_true, mem_sortKV]
+
+theorem any_ite_nil (c : Prop) [Decidable c] (a t v : Bytes) :
+    (if c then [] else [(t, v)]).any (fun e => decide (a = e.1)) = (!decide c && decide (a = t)) := by
+  split <;> simp [*]
+theorem any_ite_nil' (c : Prop) [Decidable c] (a t v : Bytes) :
+    (if c then [(t, v)] else []).any (fun e => decide (a = e.1)) = (decide c && decide (a = t)) := by
+  split <;> simp [*]
+
+theorem unmarshalKV_marshalKV (p : Params) (h : PWF p) : unmarshalKV Params.zero (marshalKV p) = some p := by
+  unfold unmarshalKV
+  rw [applyAll_of_mem p h _ _ (fun e he => (mem_sortKV e _).1 he)]
+  congr 1
+  rcases p with ⟨enc, comp, cl, cw, tid, rc, tgid, tgc, tgi⟩
+  simp only [merge, any_sortKV, marshalKV, List.any_append, any_ite_nil, any_ite_nil', Params.zero]
+  cases cl <;> cases cw <;>
+    simp [tEnc_eq, tComp_eq, tClevel_eq, tCwinbits_eq, tTid_eq, tReconnect_eq, tTgid_eq, tTgcount_eq, tTgidx_eq] <;>
+    exact ⟨fun h => h.symm, fun h => h.symm⟩
+
+/-! ### rejections -/
+
+theorem applyAll_none_of_mem (k v : Bytes) (hnone : ∀ q, applyKV q k v = none) :
+    ∀ (l : List (Bytes × Bytes)) (p : Params), (k, v) ∈ l → applyAll p l = none := by
+  intro l
+  induction l with
+  | nil => intro p h; simp at h
+  | cons e r ih =>
+    intro p h
+    obtain ⟨k', v'⟩ := e
+    simp only [applyAll]
+    rcases List.mem_cons.1 h with h | h
+    · obtain ⟨rfl, rfl⟩ := Prod.mk.inj h
+      rw [hnone]
+    · cases applyKV p k' v' with
+      | none => rfl
+      | some p' => exact ih p' h
+
+theorem unmarshalKV_none_of_mem (p0 : Params) (kvs : List (Bytes × Bytes)) (k v : Bytes)
+    (hnone : ∀ q, applyKV q k v = none) (hmem : (k, v) ∈ kvs) : unmarshalKV p0 kvs = none :=
+  applyAll_none_of_mem k v hnone _ _ ((mem_sortKV _ _).2 hmem)
+
+theorem applyKV_numeric_err (k v : Bytes) (hk : k = tClevel ∨ k = tCwinbits ∨ k = tTgcount ∨ k = tTgidx)
+    (hv : parseQuoted v = .err) (q : Params) : applyKV q k v = none := by
+  rcases hk with rfl | rfl | rfl | rfl
+  · rw [applyKV_clevel, hv]
+  · rw [applyKV_cwinbits, hv]
+  · rw [applyKV_tgcount, hv]
+  · rw [applyKV_tgidx, hv]
+
+theorem applyKV_bad_bool (v : Bytes) (h1 : v ≠ ascii "true") (h2 : v ≠ ascii "false") (q : Params) :
+    applyKV q tReconnect v = none := by
+  rw [applyKV_reconnect, if_neg h1, if_neg h2]
+
+/-! ### URL values -/
+
+theorem urlToKV_map (l : List (Bytes × Bytes)) (h : ∀ e ∈ l, e.1 ≠ []) :
+    urlToKV (l.map fun e => (e.1, [e.2])) = some l := by
+  induction l with
+  | nil => rfl
+  | cons e r ih =>
+    simp only [List.map_cons, urlToKV]
+    rw [if_neg (h e (by simp)), ih (fun x hx => h x (by simp [hx]))]
+
+theorem marshalKV_key_ne_nil (p : Params) : ∀ e ∈ marshalKV p, e.1 ≠ [] := by
+  intro e he
+  rw [mem_marshalKV] at he
+  rcases he with ⟨_, rfl⟩ | ⟨_, rfl⟩ | ⟨i, hi, rfl⟩ | ⟨i, hi, rfl⟩ | ⟨_, rfl⟩ | ⟨hr, rfl⟩ | ⟨_, rfl⟩ | ⟨_, rfl⟩ | ⟨_, rfl⟩ <;> simp only <;> decide
+
+theorem unmarshalURL_marshalURL (p : Params) (h : PWF p) : unmarshalURL Params.zero (marshalURL p) = some p := by
+  unfold unmarshalURL marshalURL
+  rw [urlToKV_map _ (marshalKV_key_ne_nil p)]
+  exact unmarshalKV_marshalKV p h
+
+theorem urlToKV_none (vals : List (Bytes × List Bytes))
+    (h : ∃ e ∈ vals, e.1 = [] ∨ e.2.length ≠ 1) : urlToKV vals = none := by
+  induction vals with
+  | nil => simp at h
+  | cons e r ih =>
+    obtain ⟨k, vs⟩ := e
+    simp only [urlToKV]
+    split
+    · rfl
+    · rename_i hk
+      obtain ⟨x, hx, hx2⟩ := h
+      rcases List.mem_cons.1 hx with rfl | hx
+      · simp only [hk, false_or] at hx2
+        match vs, hx2 with
+        | [], _ => rfl
+        | [_], h => simp at h
+        | _ :: _ :: _, _ => rfl
+      · rw [ih ⟨x, hx, hx2⟩]
+        split <;> rfl
+
+theorem unmarshalURL_none (p0 : Params) (vals : List (Bytes × List Bytes))
+    (h : ∃ e ∈ vals, e.1 = [] ∨ e.2.length ≠ 1) : unmarshalURL p0 vals = none := by
+  unfold unmarshalURL; rw [urlToKV_none vals h]
 
 end Iscp.Neg
